@@ -46,7 +46,7 @@ add("C01",
     "agreement of the four query forms and independence of unrelated objects.",
     "stated_not_proved: C01_sandwich, C01_exact, C01_independent as invariants over all declaration histories (evaluated by the oracle on every answer).",
     "Lean 4 proof (partial: witness + reachability of cached orders) + differential correspondence + sandwich oracle", "6/C01")
-add("C12 The model of NameAndModuleComparisonMixin._compare is also REGENERATED from interface.py on every run (tools/pyextract.py) and Lean decides mixinCompare_src_eq (= ZI.Order.mixinCompare for all operands).",
+add("C12",
     "Theorems over all name/module strings and all operand identities (Lean's code-point lexicographic String order = Python's str order): C12_eq_iff "
     "(== iff equal (name, module)), C12_hash, C12_trichotomy / C12_lt_irrefl / C12_lt_trans (strict total order), C12_derived (<=, >, >=, != and reflected forms), "
     "C12_none_last (all six operators, both operand orders, interfaces and class specifications), C12_mixed_order + C12_impl_identity (class specifications ordered "
@@ -58,7 +58,7 @@ add("C12 The model of NameAndModuleComparisonMixin._compare is also REGENERATED 
     "C12_anon_order / C12_anon_eq_iff / C12_anon_hash / C12_anon_none_last / C12_sort_anon (pairs (None, module): the modules decide, equal pairs hash equal, before None). "
     "The model of CPython's operator protocol and of both twins is "
     "compared with the real code on every ordered pair x 6 operators + hash relation + sorts, on 2 implementations x 3 PYTHONHASHSEED values, and every answer is "
-    "judged against the statement.",
+    "judged against the statement. The model of NameAndModuleComparisonMixin._compare is also REGENERATED from interface.py on every run (tools/pyextract.py) and Lean decides mixinCompare_src_eq (= ZI.Order.mixinCompare for all operands).",
     "Guards: foreign operands have string __name__/__module__ or none at all (the non-string case is the C10 finding); a None-named interface against an operand "
     "with a string name is outside the domain 'all name/module strings' (Python cannot order None and str: TypeError; C answers ==/!= False/True) - those pairs are "
     "executed and counted (pairs_outside_domain_none_vs_str_name, outside_domain_answers_*), not judged; no operand's type subclasses the other's.",
@@ -72,12 +72,12 @@ add("C14",
     "real AdapterRegistry).",
     "Guards: __conform__ callable with one argument (a TypeError of the call machinery itself is documented as 'no __conform__'); custom __adapt__ only via interfacemethod.",
     "Lean 4 proof (declarative precedence incl. call log, twin equality) + exhaustive finite correspondence + statement oracle", "6/C14")
-add("C17 The model of verify._incompat is also REGENERATED from verify.py on every run (tools/pyextract.py) and Lean decides incompat_src_eq: the regenerated definition equals the hand model of C17_incompat_iff for all signatures.",
+add("C17",
     "Theorems: C17_incompat_iff (_incompat finds nothing iff EVERY call shape admitted by the interface signature binds to the implementation — all arities, "
     "unbounded surplus positionals, extra keywords), verifyElement_none_iff + C17_verify (success iff declared-or-tentative and every own or inherited member "
     "acceptable, with the class-verification exemptions), C17_errors (single Invalid iff exactly one failure, else MultipleInvalid listing exactly the individual "
     "failures in order). The complete 64x64 signature grid x {function, bound method, class} and random multi-member interfaces are executed on both twins every "
-    "run, compared with the model (results, failure lists, messages) and judged by inspect.signature.bind on every admitted shape.",
+    "run, compared with the model (results, failure lists, messages) and judged by inspect.signature.bind on every admitted shape. The model of verify._incompat is also REGENERATED from verify.py on every run (tools/pyextract.py) and Lean decides incompat_src_eq: the regenerated definition equals the hand model of C17_incompat_iff for all signatures.",
     "Guards: positional / defaulted / *args / **kwargs parameters (the statement's list); required keyword-only parameters of an implementation are outside it.",
     "Lean 4 proof (iff over all call shapes, result/error-list characterisation) + exhaustive grid correspondence + inspect.bind oracle", "6/C17")
 add("C18",
